@@ -2,5 +2,5 @@
 # background job (vp run --with-repo): every thorough check, then the detection diagonal and the false-alarm matrix
 cd "$(dirname "$0")"
 ./run_thorough.sh
-python3 matrix.py --workers 4 --diagonal
-python3 benign_matrix.py --workers 4
+python3 matrix.py --workers 5 --diagonal
+python3 benign_matrix.py --workers 5
